@@ -205,6 +205,54 @@ def probe(name, scale):
                 except AssertionError:
                     verdicts.append("rejected")
             out["verdicts"] = verdicts
+        elif name.startswith("degenerate"):
+            # the smallest designs of every kind (added after seeds C20-13/14: designs that leave the class-wide tolerance undefined made the next operation
+            # raise in a fresh interpreter only): pads only, one module, no nets, one cell, one region, a 1 x 1 grid
+            from frame.allocation.allocation import Allocation
+            res = {}
+
+            only = name.split(":", 1)[1] if ":" in name else None      # each degenerate design is probed ALONE in its interpreter: the first one would define the tolerances for the others
+
+            def attempt(tag, fn):
+                if only and tag != only:
+                    return
+                try:
+                    res[tag] = fn()
+                except Exception as e:  # noqa
+                    res[tag] = f"raised {type(e).__name__}: {e}"
+            key = lambda rs: sorted((r9(r.center.x), r9(r.center.y), r9(r.shape.w), r9(r.shape.h), r.region) for r in rs)  # noqa
+            cells = lambda al: sorted((r9(x.rect.center.x), r9(x.rect.center.y), r9(x.rect.shape.w), r9(x.rect.shape.h), x.depth,  # noqa
+                                       sorted((k, r9(v)) for k, v in x.alloc.items())) for x in al.allocations)
+            pads = {"Modules": {"P1": {"terminal": True, "center": [0, 1 * s]}, "P2": {"terminal": True, "fixed": True, "center": [4 * s, 3 * s]}}, "Nets": [["P1", "P2"]]}
+
+            def pads_on_a_die():
+                n2 = Netlist(write_yaml(pads))
+                d2 = Die(f"{4 * s}x{3 * s}", n2)
+                return [r9(n2.wire_length), key(d2.ground_regions), key(d2.fixed_regions)]
+            attempt("pads_only_on_a_die", pads_on_a_die)
+            attempt("one_cell_griddify", lambda: cells(Allocation(write_yaml([[[2 * s, 1 * s, 4 * s, 2 * s], {"A": 0.5}]])).griddify()))
+            attempt("one_cell_refine", lambda: cells(Allocation(write_yaml([[[2 * s, 1 * s, 4 * s, 2 * s], {"A": 0.5}]])).refine(0.9, 2)))
+            attempt("one_cell_uniform", lambda: cells(Allocation(write_yaml([[[2 * s, 1 * s, 4 * s, 2 * s], {}]])).uniform_refinement_depth()))
+            attempt("one_soft_module_no_nets", lambda: [(m.name, r9(m.area())) for m in Netlist(write_yaml({"Modules": {"A": {"area": 2 * s * s}}})).modules])
+            attempt("one_hard_rectangle", lambda: [[r.location.name for r in m.rectangles] for m in
+                                                   Netlist(write_yaml({"Modules": {"H": {"hard": True, "rectangles": [[1 * s, 1 * s, 2 * s, 2 * s]]}}})).modules])
+
+            def plain_die():
+                d2 = Die(f"{3 * s}x{2 * s}")
+                g0 = key(d2.ground_regions)
+                d2.initial_grid(1, 1)
+                g1 = key(d2.ground_regions)
+                d2.split_refinable_regions(2.0, 1)
+                return [g0, g1, key(d2.ground_regions)]
+            attempt("plain_die_1x1_grid_one_region", plain_die)
+            attempt("whole_die_region", lambda: (lambda d2: [key(d2.ground_regions), key(d2.specialized_regions)])(
+                Die(write_yaml({"width": 4 * s, "height": 2 * s, "regions": [[2 * s, 1 * s, 4 * s, 2 * s, "BRAM"]]}))))
+
+            def stog_one():
+                rs = [Rectangle(center=Point(1 * s, 1 * s), shape=Shape(2 * s, 1 * s))]
+                return [create_stog(rs), rs[0].location.name]
+            attempt("recognise_one_rectangle", stog_one)
+            out["degenerate"] = res
         elif name == "decimal":
             # designs given with plain decimal numbers: sides that coincide in exact arithmetic differ by binary rounding (an ulp or two), which
             # is what the relative tolerance exists to absorb -- whatever comparable design defined it first (added after seed C20-12: a die that
